@@ -376,12 +376,13 @@ def r5_saturating_conversion(ctx):
         return
     cu = ctx.func("pyxel.util.misc:convert_to_unsigned")
     p_codes, p_bits, p_dt = cu.params[:3]
-    masks = [(st, val) for nm in {t.id for st_ in ast.walk(cu.node) if isinstance(st_, ast.Assign) for t in st_.targets if isinstance(t, ast.Name)} for st, val in local_defs(cu, nm) if val is not None and isinstance(val, ast.Compare) and len(val.ops) == 1 and isinstance(val.ops[0], ast.GtE) and norm(val.comparators[0]) in (f"2.0 ** {p_bits}", f"2 ** {p_bits}", f"float(2 ** {p_bits})")]
+    assigned = {t.id for st_ in ast.walk(cu.node) if isinstance(st_, ast.Assign) for t in st_.targets if isinstance(t, ast.Name)} | {st_.target.id for st_ in ast.walk(cu.node) if isinstance(st_, ast.AnnAssign) and isinstance(st_.target, ast.Name)}
+    masks = [(st, val) for nm in sorted(assigned) for st, val in local_defs(cu, nm) if val is not None and isinstance(val, ast.Compare) and len(val.ops) == 1 and isinstance(val.ops[0], ast.GtE) and norm(val.comparators[0]) in (f"2.0 ** {p_bits}", f"2 ** {p_bits}", f"float(2 ** {p_bits})")]
     ok = len(masks) == 1 and p_codes in names_in(masks[0][1].left)
     ctx.check(ok, cu.qual + "#mask", "overflow = codes >= 2.0**bits" if ok else "no mask of the codes that reach 2**bits", where=cu, node=masks[0][0] if masks else cu.node)
     if not ok:
         return
-    mname = masks[0][0].targets[0].id
+    mname = (masks[0][0].targets[0] if isinstance(masks[0][0], ast.Assign) else masks[0][0].target).id
     rets = [r for r in returns_of(cu) if r.value is not None]
     rname = dotted(rets[0].value) if len(rets) == 1 else None
     rdefs = [val for st, val in local_defs(cu, rname or "") if val is not None]
